@@ -643,8 +643,8 @@ theorem tie_factory_event_types :
     Generated.C18.factoryEventTypes = [
       "createStorageNodeStateMachine: watch constants.StorageLiveNodesPath, discovery.NodeStartup, discovery.NodeFailure",
       "createDatabaseConfigStateMachine: watch constants.DatabaseConfigPath, discovery.DatabaseConfigChanged, discovery.DatabaseConfigDeletion",
-      "createShardAssignmentStateMachine: watch constants.ShardAssignmentPath, discovery.ShardAssignmentChanged, discovery.ShardAssignmentDeletion"] := by
-  decide
+      "createShardAssignmentStateMachine: watch constants.ShardAssignmentPath, discovery.ShardAssignmentChanged, discovery.ShardAssignmentDeletion"] :=
+  rfl
 
 /-- a failed read of the persisted assignment (any error but ErrNotExist) never leads to a write:
 the repository is left exactly as it was — an existing database is not taken for a new one -/
